@@ -286,6 +286,7 @@ def run_generators(shard, rec):
     from dagrt.language import CodeBuilder, DAGCode
     mon = WrapMonitor(rec)
     mon.attach()
+    mon.ast_check = True
     try:
         for name, dag, utm in sample_programs():
             before = rec.counters.get("wrap_contract_evaluations_python", 0)
